@@ -545,6 +545,49 @@ def r10_forwarding_slices(ctx):
     ctx.floor("R01.10", "relay loop sinks (socks5, http, server handler)", n, 6)
 
 
+def r17_fill_loops_write_at_the_cursor(ctx):
+    """a loop that fills a caller's buffer piece by piece writes each piece where the previous one ended: inside a cycle, a
+    `copy_from_slice` into a slice of a buffer that lives across the turns starts at a position that changes from turn to turn
+    (`buf[offset..]`), never at a fixed one (`buf[..n]`) — the second piece would land on top of the first and the tail of the
+    buffer stay unwritten (a field that straddles two chunks is decoded from scrambled bytes)"""
+    n = 0
+    for key, body in ctx.P.scan():
+        if key.startswith(("anytls_", "util::cert", "util::tls")):
+            continue
+        cs = [c for c in body.calls() if (c.norm or "").endswith(("::copy_from_slice", "::clone_from_slice")) and c.args]
+        if not cs:
+            continue
+        cfg, o = ctx.cfg(body), ctx.origins(body)
+        for c in cs:
+            if not cfg.in_cycle(c.bb):
+                continue
+            cyc = cfg.cycle_blocks(c.bb)
+            dst = o.of_operand(c.args[0])
+            if not (is_call_term(dst, "::index_mut") and len(dst[3]) > 1):
+                continue
+            base, rng = dst[3][0], dst[3][1]
+            # a buffer created afresh in every turn is not being *filled* by the loop
+            bl = base[2] if isinstance(base, tuple) and base and base[0] == "var" and len(base) > 2 else None
+            if bl is not None and any(d[1] in cyc for d in body.defs().get(bl, []) if d[0] in ("assign", "call")) and bl > body.arg_count:
+                continue
+            if not (isinstance(rng, tuple) and rng and rng[0] == "agg" and "Range" in str(rng[1])):
+                continue
+            n += 1
+            kind = str(rng[1]).split("::")[-1]
+            start = rng[3][0] if kind in ("Range", "RangeFrom", "RangeInclusive") and rng[3] else None
+            moving = False
+            if start is not None:
+                for s_ in subterms(start):
+                    if isinstance(s_, tuple) and s_ and s_[0] == "var" and len(s_) > 2 and any(d[1] in cyc for d in body.defs().get(s_[2], []) if d[0] in ("assign", "call")):
+                        moving = True
+                    if isinstance(s_, tuple) and s_ and s_[0] == "phi":
+                        moving = True
+            ctx.ob("R01.17", "%s|fill#%d" % (ctx.P.owner(key), n), moving, c.site, "the piece is written at a position that advances with the loop" if moving else
+                   "inside a loop, `copy_from_slice` writes into `%s[%s]`, whose start is the same in every turn: the second piece overwrites the first and the rest of the buffer keeps its old contents — "
+                   "a value that straddles two chunks (an address, a port, a length prefix cut by a frame boundary) is decoded from scrambled bytes" % (fmt(base)[:20], fmt(rng)[:40]))
+    ctx.ob("R01.17", "crate:fill-loops-write-at-the-cursor", True, "", "%d copies into long-lived buffers inside loops examined" % n, nontrivial=False)
+
+
 def run(ctx):
     from . import effects
     effects.check_property(ctx, "C01")    # R01.E: no operation on shared protocol state outside the reviewed table
@@ -554,6 +597,9 @@ def run(ctx):
     r14_one_path_per_stream(ctx)
     r15_no_read_ahead_is_thrown_away(ctx)
     r16_poll_read_appends(ctx)
+    r17_fill_loops_write_at_the_cursor(ctx)
+    from . import C09 as _C09w
+    _C09w.r9_write_errors_funnel(ctx)   # a failed transport write is never retried: the transport may hold a prefix of the frame, and a second attempt sends that prefix twice
     from . import C11 as _C11c
     _C11c.r7_cancellation(ctx)    # a frame write dropped half-way leaves a fragment in front of the stream data that follows
     from . import C17 as _C17
